@@ -116,6 +116,8 @@ pub struct ScriptedFs {
     pub next: Arc<Mutex<Ret>>,
     /// id translation performed by id_remap: uid/gid are XOR-ed with this value
     pub remap_xor: u32,
+    /// while set, `id_remap_with_nodeid` refuses (a file system that cannot translate the caller's ids)
+    pub remap_refuse: Arc<std::sync::atomic::AtomicBool>,
     /// FsOptions returned by init
     pub want: Arc<Mutex<u64>>,
     /// what `BackendFileSystem::mount` returns: root entry and largest inode number
@@ -129,6 +131,7 @@ impl ScriptedFs {
             log: Arc::new(Mutex::new(Vec::new())),
             next: Arc::new(Mutex::new(Ret::Unit)),
             remap_xor: 0,
+            remap_refuse: Arc::new(std::sync::atomic::AtomicBool::new(false)),
             want: Arc::new(Mutex::new(0)),
             root: Arc::new(Mutex::new((Entry { inode: 1, ..Entry::default() }, 1))),
         }
@@ -710,6 +713,10 @@ impl FileSystem for ScriptedFs {
     }
     fn id_remap_with_nodeid(&self, ctx: &mut Context, nodeid: u64) -> io::Result<()> {
         let before = Self::ctxj(ctx);
+        if self.remap_refuse.load(std::sync::atomic::Ordering::SeqCst) {
+            self.log.lock().unwrap().push(json!({"m": "id_remap", "fs": self.id, "nodeid": s64(nodeid), "in": before, "out": Self::ctxj(ctx), "refused": true}));
+            return Err(io::Error::from_raw_os_error(libc::EPERM));
+        }
         ctx.uid ^= self.remap_xor;
         ctx.gid ^= self.remap_xor;
         self.log.lock().unwrap().push(json!({"m": "id_remap", "fs": self.id, "nodeid": s64(nodeid), "in": before, "out": Self::ctxj(ctx)}));
